@@ -1,5 +1,7 @@
 import Amgcl.Proofs.KrylovCGModel
 import Amgcl.Proofs.KrylovCGExample
+import Amgcl.Proofs.KrylovGMRESRun
+import Amgcl.Proofs.KrylovGMRESExample
 /-!
 # C05 (second part) — the optimality clauses: CG conjugacy / A-norm optimality / finite termination
 
@@ -203,5 +205,195 @@ example : nrm stdIp Amgcl.rsqrt (vclear 3 : Vec ℚ) = 0 ∧ ¬ CG.epsTol prm₃
   decide +kernel
 
 end nonvacuous
+
+/-! ## GMRES: least-squares meaning of the Givens-reduced system
+
+Subject: one restart cycle of the GMRES MODEL `Model/SolverGMRES.lean` (gmres.hpp:201-264 statement by statement), BOTH
+preconditioning sides, inner product `stdIp`, over an ordered field.
+
+Vocabulary (definitions in `Proofs/KrylovGMRES*.lean`, `Proofs/KrylovGivens.lean`):
+
+* `CycleStart side sqrt A P f st`  `st` is a state at the `break` test of the outer loop (`st.w.r = Rf side P f A st.x`, the
+  measured residual `f − A x` (right) / `P(f − A x)` (left); `st.normR` its norm) with `st.normR ≠ 0`; every state of the
+  outer loop is of this form (`cycleStart_head`, `GMRES.final_inv`);
+* `innerPass side sqrt A P st j`   the inner-loop state after `j` passes of `GMRES.step` from `cycleStart st`; the inner
+  `do … while` of the model ends in `innerPass … j` for its own pass count `j` (`gmres_cycle_returns_iterate`);
+  `s_j = (innerPass … j).w.h.s.get j` is the last entry of the Givens-reduced right-hand side, `inner_res = |s_j|`;
+* `cycleIterate side sqrt A P st j = (GMRES.update side P st (innerPass … j)).x`   the `x` returned if the loop ends there;
+* `arnoldiNorm … i`   the value `H(i+1,i) = ‖w_i‖` pass `i` computes (`0` = breakdown);
+* `RootsExact side sqrt A P st j`   the square root is exact (`sqrt x · sqrt x = x`) on the numbers the first `j` passes
+  apply it to: `⟨r,r⟩`, `⟨w_i,w_i⟩` and the argument `1 + tmp²` of `generate_plane_rotation`, `i < j`.  Implied by
+  `hsqrt : ∀ x ≥ 0, sqrt x · sqrt x = x` (`gmres_roots_exact_of_hsqrt`; non-vacuous at `ℝ` with `Real.sqrt`), and
+  decidable on rational inputs — which makes the examples below possible with the executable `rsqrt`;
+* `Tl side A Pl` = `A Pl` (right) / `Pl A` (left), `Xl side Pl` = `Pl` / `id`, `resOf side A Pl f x` = `f − A x` / `Pl (f − A x)`;
+  `gmresKrylov side n A Pl r₀ j = span{(Tl)^i r₀ : i < j}`.
+-/
+section gmres
+variable {K : Type} [Field K] [LinearOrder K] [IsStrictOrderedRing K]
+
+/-- the hypothesis `RootsExact` follows from an exact square root -/
+theorem gmres_roots_exact_of_hsqrt (side : Side) (sqrt : K → K) (hsqrt : ∀ x, 0 ≤ x → sqrt x * sqrt x = x ∧ 0 ≤ sqrt x)
+    (A : CRS K) (P : Vec K → Vec K) (st : GMRES.St K) (j : ℕ) : RootsExact side sqrt A P st j :=
+  rootsExact_of_hsqrt side sqrt (fun x hx => (hsqrt x hx).1) A P st j
+
+/-- **the cycle of the model returns `cycleIterate`**: the inner loop ends in `innerPass … j` for its own pass count
+`j ≥ 1`, the cycle returns `x = cycleIterate … j`; and a call that makes exactly one cycle (first stopping test fails,
+second succeeds — e.g. `maxiter = k ≤ M` without earlier convergence) returns `j` iterations, the iterate after `j`
+passes, and the norm of ITS measured residual divided by `norm_rhs`. -/
+theorem gmres_cycle_returns_iterate (prm : GMRES.Params K) (sqrt : K → K) (A : CRS K) (P : Vec K → Vec K) :
+    (∀ (epsT : K) (st : GMRES.St K),
+      GMRES.inner prm stdIp sqrt A P epsT st
+          = innerPass prm.pside sqrt A P st (GMRES.inner prm stdIp sqrt A P epsT st).j ∧
+      1 ≤ (GMRES.inner prm stdIp sqrt A P epsT st).j ∧
+      (GMRES.cycle prm stdIp sqrt A P epsT st).x
+          = cycleIterate prm.pside sqrt A P st (GMRES.inner prm stdIp sqrt A P epsT st).j) ∧
+    ∀ (eps : K) (ws : GMRES.Work K) (f x0 : Vec K) (nf : K),
+      prologueA prm.nsSearch stdIp sqrt eps f = .go nf →
+      GMRES.stop prm.maxiter (GMRES.epsTol prm nf) (GMRES.init prm stdIp sqrt A P ws f x0) = false →
+      GMRES.stop prm.maxiter (GMRES.epsTol prm nf) (GMRES.head prm.pside stdIp sqrt A P f
+        (GMRES.cycle prm stdIp sqrt A P (GMRES.epsTol prm nf) (GMRES.init prm stdIp sqrt A P ws f x0))) = true →
+      ∃ j w, 1 ≤ j ∧ j ≤ prm.maxiter ∧
+        j = (GMRES.inner prm stdIp sqrt A P (GMRES.epsTol prm nf) (GMRES.init prm stdIp sqrt A P ws f x0)).j ∧
+        GMRES.solve prm stdIp sqrt eps A P ws f x0
+          = .ok (j, nrmA stdIp sqrt (GMRES.Rf prm.pside P f A
+                (cycleIterate prm.pside sqrt A P (GMRES.init prm stdIp sqrt A P ws f x0) j)) / nf,
+              cycleIterate prm.pside sqrt A P (GMRES.init prm stdIp sqrt A P ws f x0) j, w) :=
+  ⟨fun epsT st => ⟨(inner_eq_innerPass prm sqrt A P epsT st).1, (inner_eq_innerPass prm sqrt A P epsT st).2,
+      cycle_x prm sqrt A P epsT st⟩,
+   fun eps ws f x0 nf hp h0 h1 => run_one_cycle prm sqrt eps A P ws f x0 nf hp h0 h1⟩
+
+variable (n : ℕ) (A : CRS K) (hA : A.WF) (hn : A.nrows = n) (hm : A.ncols = n)
+  (P : Vec K → Vec K) (Pl : (Fin n → K) →ₗ[K] (Fin n → K)) (hP : PDenotes n P Pl) (side : Side) (sqrt : K → K)
+  (f : Vec K) (st : GMRES.St K) (hst : CycleStart side sqrt A P f st)
+include hA hn hm hP hst
+
+/-- **least-squares identity** (no breakdown, roots exact in the first `j` passes): for EVERY coefficient vector `y`
+the squared norm of the measured residual of `x₀ + Xl (Σ_{i<j} y_i v_i)` is
+`Σ_{a<j} (s_a − Σ_{a ≤ i < j} H(a,i) y_i)² + s_j²` with the STORED (rotated, upper triangular) `H` and `s` of the model. -/
+theorem gmres_least_squares (j : ℕ) (hroots : RootsExact side sqrt A P st j)
+    (hnb : ∀ i, i < j → arnoldiNorm side sqrt A P st i ≠ 0) (y : ℕ → K) :
+    resOf side (matOf A n n) Pl (vecOf n f) (vecOf n st.x
+        + Xl side Pl (∑ i ∈ Finset.range j, y i • vecOf n ((innerPass side sqrt A P st j).w.v.get i)))
+      ⬝ᵥ resOf side (matOf A n n) Pl (vecOf n f) (vecOf n st.x
+        + Xl side Pl (∑ i ∈ Finset.range j, y i • vecOf n ((innerPass side sqrt A P st j).w.v.get i)))
+    = ∑ a ∈ Finset.range j, ((innerPass side sqrt A P st j).w.h.s.get a
+          - ∑ i ∈ Finset.Ico a j, (innerPass side sqrt A P st j).w.h.H.get a i * y i)
+        * ((innerPass side sqrt A P st j).w.h.s.get a
+          - ∑ i ∈ Finset.Ico a j, (innerPass side sqrt A P st j).w.h.H.get a i * y i)
+      + (innerPass side sqrt A P st j).w.h.s.get j * (innerPass side sqrt A P st j).w.h.s.get j :=
+  cycle_ls n A hA hn hm P Pl hP side sqrt f st hst j hroots hnb y
+
+/-- **the Givens-reduced quantity `|s_j|` that GMRES uses as residual estimate is the norm of the true (measured)
+residual of the iterate it would return at that point**: `‖Rf x_j‖² = s_j²`, `inner_res = |s_j|`, and — when the root
+is exact on `s_j²` and non-negative there — `‖Rf x_j‖ = inner_res` with the model's own norm `nrmA`. -/
+theorem gmres_residual_estimate (j : ℕ) (hj : 1 ≤ j) (hroots : RootsExact side sqrt A P st j)
+    (hnb : ∀ i, i < j → arnoldiNorm side sqrt A P st i ≠ 0) :
+    stdIp (GMRES.Rf side P f A (cycleIterate side sqrt A P st j)) (GMRES.Rf side P f A (cycleIterate side sqrt A P st j))
+      = (innerPass side sqrt A P st j).w.h.s.get j * (innerPass side sqrt A P st j).w.h.s.get j ∧
+    (innerPass side sqrt A P st j).innerRes = Solver.absK ((innerPass side sqrt A P st j).w.h.s.get j) ∧
+    (RootAt sqrt ((innerPass side sqrt A P st j).w.h.s.get j * (innerPass side sqrt A P st j).w.h.s.get j) ∧
+        0 ≤ sqrt ((innerPass side sqrt A P st j).w.h.s.get j * (innerPass side sqrt A P st j).w.h.s.get j) →
+      nrmA stdIp sqrt (GMRES.Rf side P f A (cycleIterate side sqrt A P st j))
+        = (innerPass side sqrt A P st j).innerRes) := by
+  refine ⟨cycle_residual n A hA hn hm P Pl hP side sqrt f st hst j hj hroots hnb, ?_, fun hs => ?_⟩
+  · obtain ⟨m, rfl⟩ : ∃ m, j = m + 1 := ⟨j - 1, by omega⟩
+    exact innerPass_innerRes side sqrt A P st m
+  · obtain ⟨h1, h2⟩ := cycle_residual_norm n A hA hn hm P Pl hP side sqrt f st hst j hj hroots hnb hs
+    rw [h1, h2]
+
+/-- **the iterate minimises the norm of the measured residual over `x₀ + Xl (K_j(T, r₀))`**, `T = A Pl` / `Pl A` the
+preconditioned operator, `r₀` the measured residual at the start of the cycle: the iterate lies in that affine space
+and no element of it has a smaller residual norm (squared form, no root). -/
+theorem gmres_minimises_residual (j : ℕ) (hj : 1 ≤ j) (hroots : RootsExact side sqrt A P st j)
+    (hnb : ∀ i, i < j → arnoldiNorm side sqrt A P st i ≠ 0) :
+    (∃ d ∈ gmresKrylov side n A Pl (vecOf n st.w.r) j,
+      vecOf n (cycleIterate side sqrt A P st j) = vecOf n st.x + Xl side Pl d) ∧
+    ∀ d ∈ gmresKrylov side n A Pl (vecOf n st.w.r) j,
+      stdIp (GMRES.Rf side P f A (cycleIterate side sqrt A P st j))
+          (GMRES.Rf side P f A (cycleIterate side sqrt A P st j))
+        ≤ resOf side (matOf A n n) Pl (vecOf n f) (vecOf n st.x + Xl side Pl d)
+          ⬝ᵥ resOf side (matOf A n n) Pl (vecOf n f) (vecOf n st.x + Xl side Pl d) := by
+  rw [← arnoldiSpan_eq_krylov n A hA hn hm P Pl hP side sqrt f st hst j hroots hnb]
+  exact ⟨cycleIterate_mem n A hA hn hm P Pl hP side sqrt f st hst j hj hroots hnb,
+    fun d hd => cycle_minimal n A hA hn hm P Pl hP side sqrt f st hst j hj hroots hnb d hd⟩
+
+omit hA hn hm hP hst in
+/-- **`gmres_residual_antitone`, the reported estimate**: `inner_res` after pass `j+1` is `|sn_j|·|s_j| ≤ |s_j|` — the
+quantity the loop tests does not increase from pass to pass (root exact in the rotation of pass `j` only). -/
+theorem gmres_estimate_antitone (j : ℕ)
+    (hg : RootAt sqrt (rotArgOf side sqrt A P (innerPass side sqrt A P st j))) :
+    (innerPass side sqrt A P st (j + 1)).innerRes ≤ Solver.absK ((innerPass side sqrt A P st j).w.h.s.get j) := by
+  obtain ⟨h1, h2⟩ := innerRes_antitone side sqrt A P st j hg
+  rw [h1]; exact h2
+
+/-- **`gmres_residual_antitone`, the true residual**: within a cycle the norm of the measured residual of the iterate
+does not increase with the number of passes: `‖Rf x_{j+1}‖² ≤ ‖Rf x_j‖²` (`j ≥ 1`), and `‖Rf x_1‖² ≤ ‖r₀‖²`. -/
+theorem gmres_residual_antitone (j : ℕ) (hroots : RootsExact side sqrt A P st (j + 1))
+    (hnb : ∀ i, i < j + 1 → arnoldiNorm side sqrt A P st i ≠ 0) :
+    stdIp (GMRES.Rf side P f A (cycleIterate side sqrt A P st (j + 1)))
+        (GMRES.Rf side P f A (cycleIterate side sqrt A P st (j + 1)))
+      ≤ (if j = 0 then stdIp (GMRES.Rf side P f A st.x) (GMRES.Rf side P f A st.x)
+         else stdIp (GMRES.Rf side P f A (cycleIterate side sqrt A P st j))
+          (GMRES.Rf side P f A (cycleIterate side sqrt A P st j))) := by
+  by_cases hj : j = 0
+  · subst hj
+    rw [if_pos rfl]
+    exact cycle_antitone_zero n A hA hn hm P Pl hP side sqrt f st hst hroots (hnb 0 Nat.zero_lt_one)
+  · rw [if_neg hj]
+    exact cycle_antitone n A hA hn hm P Pl hP side sqrt f st hst j (by omega) hroots hnb
+
+end gmres
+
+/-! ### non-vacuity over `ℚ` with the executable `rsqrt`: non-symmetric `A = [[3,0,1],[4,5,2],[0,4,3]]`, identity
+preconditioner, right side, `f = (25,0,0)`, `x₀ = 0` — `rsqrt` is exact on every number the first two passes apply it to
+(data and discharged hypotheses `hAg, hPg, hstg, hrootsg, hnbg` in `Proofs/KrylovGMRESExample.lean`) -/
+section nonvacuousGmres
+open Amgcl.Krylov.ExG
+
+/-- `gmres_residual_estimate` for `j = 2`: `‖f − A x₂‖² = s₂²` … -/
+example : stdIp (GMRES.Rf .right Pg fg Ag (cycleIterate .right Amgcl.rsqrt Ag Pg stg 2))
+      (GMRES.Rf .right Pg fg Ag (cycleIterate .right Amgcl.rsqrt Ag Pg stg 2))
+    = (innerPass .right Amgcl.rsqrt Ag Pg stg 2).w.h.s.get 2 * (innerPass .right Amgcl.rsqrt Ag Pg stg 2).w.h.s.get 2 :=
+  (gmres_residual_estimate 3 Ag hAg rfl rfl Pg LinearMap.id hPg .right Amgcl.rsqrt fg stg hstg 2 (by decide) hrootsg
+    hnbg).1
+
+/-- … and, with the root exact on `s₂² = 256` as well, `‖f − A x₂‖ = inner_res` in the model's own norm -/
+example : nrmA stdIp Amgcl.rsqrt (GMRES.Rf .right Pg fg Ag (cycleIterate .right Amgcl.rsqrt Ag Pg stg 2))
+    = (innerPass .right Amgcl.rsqrt Ag Pg stg 2).innerRes :=
+  (gmres_residual_estimate 3 Ag hAg rfl rfl Pg LinearMap.id hPg .right Amgcl.rsqrt fg stg hstg 2 (by decide) hrootsg
+    hnbg).2.2 (by decide +kernel)
+
+/-- the numbers, evaluated independently by the kernel: `s₂ = 16`, `‖f − A x₂‖² = 256`, `|s₁| = 20 > |s₂| = 16`,
+`x₂ = (123/25, −12/5, 0)` is not the solution -/
+example : (innerPass .right Amgcl.rsqrt Ag Pg stg 2).w.h.s.get 2 = 16 ∧
+    stdIp (residual fg Ag (cycleIterate .right Amgcl.rsqrt Ag Pg stg 2))
+      (residual fg Ag (cycleIterate .right Amgcl.rsqrt Ag Pg stg 2)) = 256 ∧
+    (innerPass .right Amgcl.rsqrt Ag Pg stg 1).innerRes = 20 ∧ (innerPass .right Amgcl.rsqrt Ag Pg stg 2).innerRes = 16 ∧
+    cycleIterate .right Amgcl.rsqrt Ag Pg stg 2 = #[123/25, -12/5, 0] := by decide +kernel
+
+/-- `gmres_least_squares` / `gmres_minimises_residual` for `j = 2` on this system (all hypotheses discharged) -/
+example : (∃ d ∈ gmresKrylov .right 3 Ag LinearMap.id (vecOf 3 stg.w.r) 2,
+      vecOf 3 (cycleIterate .right Amgcl.rsqrt Ag Pg stg 2) = vecOf 3 stg.x + Xl .right LinearMap.id d) ∧
+    ∀ d ∈ gmresKrylov .right 3 Ag LinearMap.id (vecOf 3 stg.w.r) 2,
+      stdIp (GMRES.Rf .right Pg fg Ag (cycleIterate .right Amgcl.rsqrt Ag Pg stg 2))
+          (GMRES.Rf .right Pg fg Ag (cycleIterate .right Amgcl.rsqrt Ag Pg stg 2))
+        ≤ resOf .right (matOf Ag 3 3) LinearMap.id (vecOf 3 fg) (vecOf 3 stg.x + Xl .right LinearMap.id d)
+          ⬝ᵥ resOf .right (matOf Ag 3 3) LinearMap.id (vecOf 3 fg) (vecOf 3 stg.x + Xl .right LinearMap.id d) :=
+  gmres_minimises_residual 3 Ag hAg rfl rfl Pg LinearMap.id hPg .right Amgcl.rsqrt fg stg hstg 2 (by decide) hrootsg hnbg
+
+/-- `gmres_residual_antitone` for `j = 1`: `‖f − A x₂‖² ≤ ‖f − A x₁‖²` (here `256 ≤ 400`) -/
+example : stdIp (GMRES.Rf .right Pg fg Ag (cycleIterate .right Amgcl.rsqrt Ag Pg stg 2))
+      (GMRES.Rf .right Pg fg Ag (cycleIterate .right Amgcl.rsqrt Ag Pg stg 2))
+    ≤ stdIp (GMRES.Rf .right Pg fg Ag (cycleIterate .right Amgcl.rsqrt Ag Pg stg 1))
+      (GMRES.Rf .right Pg fg Ag (cycleIterate .right Amgcl.rsqrt Ag Pg stg 1)) :=
+  gmres_residual_antitone 3 Ag hAg rfl rfl Pg LinearMap.id hPg .right Amgcl.rsqrt fg stg hstg 1 hrootsg hnbg
+
+/-- `gmres_cycle_returns_iterate` on this system with `maxiter = 2 ≤ M = 3`: the call makes one cycle of two passes and
+returns `cycleIterate … 2` with reported residual `16/25` -/
+example : (match GMRES.solve prmg stdIp Amgcl.rsqrt 0 Ag Pg (GMRES.Work.fresh 3) fg xg with
+      | .ok (it, res, x, _) => decide (it = 2 ∧ res = 16/25 ∧ x = cycleIterate .right Amgcl.rsqrt Ag Pg stg 2)
+      | _ => false) = true := by decide +kernel
+
+end nonvacuousGmres
 
 end Amgcl.C05b
